@@ -11,7 +11,10 @@
 package c13
 
 import (
+	"fmt"
+	"os"
 	"sync"
+	"time"
 
 	"github.com/kardiachain/go-kardia/lib/log"
 
@@ -46,13 +49,24 @@ func Main() {
 		r.Inconclusive("reference Merkle tree self-test failed: " + msg)
 		r.Finish()
 	}
+	t0 := time.Now()
+	lap := func(what string) {
+		if os.Getenv("VERIF_C13_TIMING") != "" && !r.IsChild() {
+			fmt.Fprintf(os.Stderr, "[timing] %s: %.1fs\n", what, time.Since(t0).Seconds())
+		}
+		t0 = time.Now()
+	}
 	cfgs := exhaustiveCfgs(r.Quick())
 	r.Cases("parts-exhaustive", len(cfgs), core.Opts{Workers: 16}, func(c *core.Case) { exhaustiveCase(c, cfgs) })
+	lap("parts-exhaustive")
 	r.Cases("parts-random", r.N(300, 30000), core.Opts{Workers: 16}, randomCase)
+	lap("parts-random")
 
 	log.Root().SetHandler(log.DiscardHandler())
 	r.Cases("blocks-corpus", 4, core.Opts{Workers: 4}, func(c *core.Case) { blocksCase(c, true) })
+	lap("blocks-corpus")
 	r.Cases("blocks", r.N(56, 3000), core.Opts{Workers: 8}, func(c *core.Case) { blocksCase(c, false) })
+	lap("blocks")
 
 	tallyMu.Lock()
 	for k, m := range tallies {
